@@ -22,7 +22,10 @@ RULE = ("Hypothesis draws (prior table contents, new table, operation todb/appen
         "caller's connection a fresh connection reads exactly the prior contents. Non-trivial = prior contents non-empty, new table "
         "has >=2 rows (so a fault index lies strictly inside the data). Sub 'sequences': 2-4 loads (todb/appenddb, commit flag each) through ONE "
         "caller-owned connection / cursor / cursor factory against a model of the table; after every call a fresh connection "
-        "sees the last durable state (everything staged so far once a committing load has run). Distinct by digest of the case.")
+        "sees the last durable state (everything staged so far once a committing load has run). Sub 'large': the same oracle on "
+        "2300-row loads with faults beyond petl's and sqlite's batch sizes, and on 5000 rows of 1.5 KiB loaded through a file-name "
+        "handle over a table of 4000 such rows (a transaction of several MiB). The rows to load may themselves be read with "
+        "fromdb() through the caller's connection. Distinct by digest of the case.")
 ASSUMPTIONS = [
     "sqlite3 is the only DB-API driver present; tables are created by the harness with untyped columns",
     "rows have the table's arity (a malformed row is a driver error, not a failing source)",
